@@ -22,10 +22,14 @@ META = {
             "extension and it is dag_val; weights, names, AD constraints copied) and for cycle breaking (hand model of _break_cycles with the "
             "translation memo and its reuse test: for every stratified ground program and every assignment each query/evidence key of the DAG "
             "has the model value; C09_break_cycles_correct); in addition every LogicDAG / CNF instance produced by the implementation is checked "
-            "by the verified validators validate_break / validate_clark, exhaustively over atom assignments",
+            "by the verified validators validate_break / validate_clark, exhaustively over atom assignments; source formulas that carry "
+            "propagated evidence values (propagate_evidence=True: `lookup_evidence` consulted by _break_cycles) are covered by the model "
+            "break_cycles_ev_m: for every evidence map that is sound for the evidence, every query key has the least-model value in every "
+            "world satisfying the evidence and P(q|e) is unchanged (C09_break_cycles_correct_with_evidence_map, "
+            "C09_break_cycles_cond_prob_with_evidence_map, linked to the model of LogicFormula.propagate of C06)",
     "note": "Trusted: Coq kernel; extraction (ExtrOcamlBasic) + OCaml driver + Python encoders of LogicFormula/CNF objects; hand model of "
-            "_break_cycles tied by structural equality of the produced DAG on generated inputs; evidence propagation (propagate_evidence=True) "
-            "is not modelled.",
+            "_break_cycles (with and without a lookup_evidence map) tied by structural equality of the produced DAG on generated inputs; "
+            "the engine's own use of lookup_evidence while grounding is C06's subject; node names are not modelled.",
 }
 
 
@@ -304,13 +308,40 @@ def gen_program(rng, max_atoms, det_facts=False):
     return "\n".join(lines) + "\n"
 
 
-def ground_text(src):
+def ground_text(src, pe=False):
     from problog.program import PrologString
     from problog.engine import DefaultEngine
     from problog.formula import LogicFormula
     eng = DefaultEngine()
     db = eng.prepare(PrologString(src))
+    if pe:
+        return LogicFormula.create_from(db, engine=eng, propagate_evidence=True)
     return LogicFormula.create_from(db, engine=eng)
+
+
+def attach_lookup_evidence(lf):
+    """What engine.ground_evidence(propagate_evidence=True) does after grounding the evidence:
+    run the real LogicFormula.propagate on the evidence nodes and store the result on the formula."""
+    lf.lookup_evidence = {}
+    ev_nodes = [node for name, node in lf.evidence() if node != 0 and node is not None]
+    lf.propagate(ev_nodes, lf.lookup_evidence)
+
+
+def encode_evm(lf):
+    """lookup_evidence as a sorted list (key, bool); None when the formula has no such attribute."""
+    if not hasattr(lf, "lookup_evidence"):
+        return None
+    out = []
+    for k, v in lf.lookup_evidence.items():
+        if type(k) is not int or k <= 0:
+            raise ValueError("lookup_evidence key %r" % (k,))
+        if v == 0 and v is not None:
+            out.append((k, True))
+        elif v is None:
+            out.append((k, False))
+        else:
+            raise ValueError("lookup_evidence value %r is not TRUE/FALSE" % (v,))
+    return sorted(out)
 
 
 def gen_builder_ops(rng, max_atoms):
@@ -423,6 +454,13 @@ def build_formula(ops):
         if not ops.get("allow_empty") and len(lf.get_node(dkeys[j]).children) == 0:
             # the engine never leaves an empty placeholder disjunction behind (see notes/C09.md)
             lf.add_disjunct(dkeys[j], akeys[j % len(akeys)])
+    world = None
+    if ops.get("ev_assign"):
+        # evidence values read off the model of one world: the evidence is satisfiable (propagate_evidence streams)
+        tmp = Intern()
+        F0 = encode_nodes(lf, tmp)
+        ids0 = sorted({nd[1] for nd in F0 if nd[0] == "atom"})
+        world = ref_model(F0, {i: bool(ops["ev_assign"][j % len(ops["ev_assign"])]) for j, i in enumerate(ids0)})
     for idx, (kind, t, neg) in enumerate(ops["names"]):
         k = akeys[t[1]] if t[0] == "a" else dkeys[t[1]]
         if neg:
@@ -430,8 +468,13 @@ def build_formula(ops):
         nm = Term("%s%d" % ("q" if kind == "query" else "e", idx))
         if kind == "query":
             lf.add_name(nm, k, lf.LABEL_QUERY, keep_name=True)
+        elif kind == "named":
+            lf.add_name(nm, k, lf.LABEL_NAMED, keep_name=True)
         else:
-            lf.add_evidence(nm, k, {"ev+": True, "ev-": False, "ev?": None}[kind], keep_name=True)
+            val = {"ev+": True, "ev-": False, "ev?": None}[kind]
+            if world is not None and val is not None:
+                val = key_value(world, k)
+            lf.add_evidence(nm, k, val, keep_name=True)
     return lf
 
 
